@@ -65,6 +65,18 @@ def scope_defs(repo, nmax, with_corpus=True, nmin=1, fork_depth=3):
     return defs
 
 
+def extended_defs(nb, staged=True, bunched=True):
+    """definitions beyond fragment F whose job sets the tool must handle just
+    the same (general statements of C01/C05): bunched forks (as in the
+    corpus' bunched_* cases) with <= nb events and the staged-merge family"""
+    out = []
+    if bunched:
+        out += [("FB", d) for d in fragment.F_bunched_new(nb)]
+    if staged:
+        out += [("FS", d) for d in fragment.staged_merge_family()]
+    return out
+
+
 def construct_tags(defn):
     return sorted(dsl.constructs(defn))
 
